@@ -49,10 +49,15 @@ func init() { families["callbacks"] = family{gen: genCallbacks, exec: execCallba
 type stepBody struct {
 	feed   chan []byte   // next chunk of the stream; closed = end of stream
 	called chan struct{} // one token per Read call, sent when Read is entered
+	quit   chan struct{} // closed when the harness is done: further Reads see the end of the stream
 }
 
 func (b *stepBody) Read(p []byte) (int, error) {
-	b.called <- struct{}{}
+	select {
+	case b.called <- struct{}{}:
+	case <-b.quit:
+		return 0, io.EOF
+	}
 	data, ok := <-b.feed
 	if !ok {
 		return 0, io.EOF
@@ -78,10 +83,13 @@ type cbConn struct {
 	body *stepBody
 	done chan error
 	up   bool
+	// broken: Connect returned although the stream has not ended
+	broken   bool
+	finished bool
 }
 
 func newCbConn() *cbConn {
-	body := &stepBody{feed: make(chan []byte), called: make(chan struct{})}
+	body := &stepBody{feed: make(chan []byte), called: make(chan struct{}), quit: make(chan struct{})}
 	client := sse.Client{
 		HTTPClient:        &http.Client{Transport: stepTransport{body}},
 		ResponseValidator: sse.NoopValidator,
@@ -94,27 +102,50 @@ func newCbConn() *cbConn {
 // connect starts Connect and returns once the read loop waits for the first chunk.
 func (c *cbConn) connect() {
 	go func() { c.done <- c.conn.Connect() }()
-	<-c.body.called
 	c.up = true
+	c.wait()
+}
+
+// wait returns when the read loop asks for the next chunk (or Connect has returned: broken).
+func (c *cbConn) wait() {
+	if c.broken {
+		return
+	}
+	select {
+	case <-c.body.called:
+	case <-c.done:
+		c.broken = true
+	}
 }
 
 // deliver releases one event and returns when its dispatch has completed.
 func (c *cbConn) deliver(typ string, data string) {
+	if c.broken {
+		return
+	}
 	s := ""
 	if typ != "" {
 		s = "event: " + typ + "\n"
 	}
 	s += "data: " + data + "\n\n"
-	c.body.feed <- []byte(s)
-	<-c.body.called
+	select {
+	case c.body.feed <- []byte(s):
+		c.wait()
+	case <-c.done:
+		c.broken = true
+	}
 }
 
 func (c *cbConn) finish() {
-	if !c.up {
+	if !c.up || c.finished {
 		return
 	}
+	c.finished = true
 	close(c.body.feed)
-	<-c.done
+	close(c.body.quit)
+	if !c.broken {
+		<-c.done
+	}
 }
 
 // ---- kind 0 -----------------------------------------------------------------------
@@ -154,7 +185,12 @@ func execCallbacksSeq(in val.V) val.V {
 		from := len(log)
 		switch op.At(0).Num() {
 		case 0:
-			removers = append(removers, c.conn.SubscribeEvent(op.At(1).Str(), mk(len(removers), op.At(2).Num())))
+			if op.At(1).Str() == "" && op.At(2).Num()%2 == 0 {
+				// the unnamed type through its own entry point
+				removers = append(removers, c.conn.SubscribeMessages(mk(len(removers), op.At(2).Num())))
+			} else {
+				removers = append(removers, c.conn.SubscribeEvent(op.At(1).Str(), mk(len(removers), op.At(2).Num())))
+			}
 		case 1:
 			removers = append(removers, c.conn.SubscribeToAll(mk(len(removers), op.At(1).Num())))
 		case 2:
@@ -183,6 +219,9 @@ func execCallbacksSeq(in val.V) val.V {
 		}
 		typed, all, types := c.conn.VerifCallbackCount()
 		outs = append(outs, val.L(val.L(val.Int(typed), val.Int(all), val.Int(types)), val.List(inv)))
+	}
+	if c.broken {
+		return val.S("Connect returned before the stream ended")
 	}
 	if bad != "" {
 		return val.S(bad)
@@ -273,6 +312,9 @@ func execCallbacksBlock(in val.V) val.V {
 	c.deliver("x", "1")
 	c.deliver("x", "2")
 	c.finish()
+	if c.broken {
+		return val.S("Connect returned before the stream ended")
+	}
 	f := int(first.Load())
 	missed := 0
 	if f < 0 {
@@ -398,6 +440,9 @@ func execCallbacksStorm(in val.V) val.V {
 	close(stop)
 	wg.Wait()
 	c.finish()
+	if c.broken {
+		return val.S("Connect returned before the stream ended")
+	}
 	missed := 0
 	for _, w := range wit {
 		var want []int
